@@ -5,7 +5,9 @@ keys may differ between tiers, always merge the quick AND the thorough dump)
 Every dumped key must match a rule of props/<cxx>/findings.rules (regex TAB root-cause text),
 otherwise nothing is written: a key is only listed after a human classified its root cause."""
 import json, re, sys
-prop, dumps = sys.argv[1], sys.argv[2:]
+add = "--add" in sys.argv  # --add: keep the open entries already listed (only add the new keys of these dumps)
+args = [a for a in sys.argv[1:] if a != "--add"]
+prop, dumps = args[0], args[1:]
 rules = []
 for line in open(f"/verif/props/{prop.lower()}/findings.rules"):
     line = line.rstrip("\n")
@@ -29,7 +31,7 @@ for f in allf:
 if bad:
     print("UNCLASSIFIED (%d):" % len(bad)); print("\n".join(bad[:40])); sys.exit(1)
 doc = json.load(open("/verif/known_findings.json"))
-keep = [f for f in doc["findings"] if not (f["property"] == prop and f["status"] == "open")]
+keep = [f for f in doc["findings"] if add or not (f["property"] == prop and f["status"] == "open")]
 have = {(f["property"], f["key"]) for f in keep}
 keep += [f for f in new if (f["property"], f["key"]) not in have]
 keep.sort(key=lambda f: (f["property"], f["status"], f["key"]))
